@@ -22,11 +22,13 @@ macro_rules! dispatch {
             "C07" => $f(&props::c07::prop(), $($arg),*),
             "C08" => $f(&props::c08::prop(), $($arg),*),
             "C09" => $f(&props::c09::prop(), $($arg),*),
+            "C12" => $f(&props::c12::C12, $($arg),*),
             "C13" => $f(&props::c13::prop(), $($arg),*),
             "C14" => $f(&props::c14::prop(), $($arg),*),
             "C15" => $f(&props::c15::C15, $($arg),*),
             "C16" => $f(&props::c16::prop(), $($arg),*),
             "C17" => $f(&props::c17::C17, $($arg),*),
+            "C18" => $f(&props::c18::C18, $($arg),*),
             "C19" => $f(&props::c19::C19Prop, $($arg),*),
             other => {
                 eprintln!("unknown property {}", other);
